@@ -260,6 +260,17 @@ static void gen_array_model(rng_t *r, int m, uint64_t *a, size_t n, unsigned max
         }
         a[rng_below(r, n)] = base;
         a[rng_below(r, n)] = base + range;
+        if (n >= 24 && k * 8 < maxbits && rng_chance(r, 1, 2)) {
+            /* a few values (fewer than 5%, 1% or 10%) above the all-ones offset: some fit one more byte, some are far away */
+            uint64_t room = cap - (base + range);
+            size_t outliers = 1 + rng_below(r, n / (rng_chance(r, 1, 2) ? 25 : 120) + 1);
+            for (size_t j = 0; j < outliers && room; j++) {
+                uint64_t above = rng_chance(r, 2, 3) ? 1 + rng_below(r, range < (1ULL << 40) ? range * 200 + 1 : range) : gen_value(r);
+                if (above > room) above = 1 + above % room;
+                a[rng_below(r, n)] = base + range + above;
+            }
+            a[rng_below(r, n)] = base;
+        }
         break;
     }
     case AM_PERIODIC: { /* every period-th element equal, the rest unique */
